@@ -138,7 +138,7 @@ func genC14(t *rapid.T) *CaseC14 {
 	if tiny && u > 0.25 {
 		u = 0.25
 	}
-	if !tiny && c.H >= 8 && rapid.IntRange(0, 99).Draw(t, "wideRadius") == 0 {
+	if !tiny && c.H >= 8 && rapid.IntRange(0, 39).Draw(t, "wideRadius") == 23 {
 		// a wide corridor: 2.5 .. 13 voxel widths around a short segment; the vertical zoom is lowered until one
 		// vertical layer suffices, so the search box stays at a few thousand voxels
 		u = rapid.Float64Range(2.5, 13).Draw(t, "uWide")
@@ -176,6 +176,12 @@ func classifyC14(c *CaseC14) (bool, []string) {
 		cl = append(cl, "radius<0.5-voxel")
 	} else {
 		cl = append(cl, "radius>=0.5-voxel")
+	}
+	if c.U.V() > 2.5 {
+		cl = append(cl, "wide-corridor(>2.5-voxel-widths)")
+	}
+	if c.U.V() >= 7 {
+		cl = append(cl, "wide-corridor(>=7-voxel-widths)")
 	}
 	if c.H <= 3 {
 		cl = append(cl, "h<=3")
